@@ -307,6 +307,20 @@ def check(repo):
         spawned = any(isinstance(c, ast.Call) and isinstance(c.func, ast.Attribute) and c.func.attr == "clean_service_when_close_connection"
                       for c in ast.walk(create.node))
         r5.require(spawned, create, "clean-up scheduled", "create_service no longer schedules the clean-up of its registration")
+        # ... as a task of its own, created before the connection is served: run inline after start() returned, the clean-up of a closed
+        # connection begins only after a waiting newcomer has registered, and its delayed unregistration then removes the newcomer
+        task_nodes = set()
+        for n in cfg.nodes:
+            if n.stmt is None or n.ast is None:
+                continue
+            for c in ast.walk(n.stmt if n.kind != "test" else n.ast):
+                if isinstance(c, ast.Call) and dotted(c.func) in ("asyncio.create_task", "asyncio.ensure_future") and c.args and isinstance(c.args[0], ast.Call) and \
+                        isinstance(c.args[0].func, ast.Attribute) and c.args[0].func.attr == "clean_service_when_close_connection":
+                    task_nodes.add(n.id)
+        if start_nodes:
+            r5.require(bool(task_nodes) and not cfg.can_reach(cfg.entry, start_nodes[0].id, avoid=task_nodes), create, "clean-up runs concurrently with serving",
+                       "create_service no longer creates the clean-up task before it serves the connection (the clean-up runs inline after start() returned): a connection "
+                       "that was waiting registers first and is then unregistered by its predecessor's delayed clean-up")
 
     # ---------------------------------------------------------------- R12.1 check-then-act
     for fi in coros:
